@@ -451,8 +451,18 @@ def run_obs(case):
 
         held = {"before": snapshot.snapshot([det, pipe, readout])}
 
+        def _times_writeable():
+            t = getattr(readout, "_times", None)
+            return bool(t.flags.writeable) if isinstance(t, np.ndarray) else None
+
+        writeable_before = _times_writeable()
+
         def check_caller(tag):
             after = snapshot.snapshot([det, pipe, readout])
+            if _times_writeable() != writeable_before:
+                # (the caller's schedule must stay the caller's: an array that was editable before the call still is)
+                bad("caller-changed", f"{tag}: the caller's readout times array was writeable={writeable_before} before the call "
+                    f"and is writeable={_times_writeable()} now", where="readout.times-flags")
             d = snapshot.diff(held["before"], after, ignore=IGNORE)
             if d:
                 bad("caller-changed", f"{tag}: the caller's objects changed: {snapshot.fmt(d)}", where=_where(d[0][0]))
@@ -541,8 +551,9 @@ def _cal_objects(pk, prior, tmp):
     tgt = os.path.join(tmp, "target.npy")
     target = np.arange(6.0).reshape(ROWS, COLS) + _s()
     np.save(tgt, target)
+    # (the second variable is declared logarithmic: the optimiser's component is the base-10 logarithm of the value)
     cal = calib.calibration([tgt], [ParameterValues(key=K_INC, values="_", boundaries=(0.0, 10.0)),
-                                    ParameterValues(key=K_A, values="_", boundaries=(0.0, 100.0))],
+                                    ParameterValues(key=K_A, values="_", boundaries=(1.0, 100.0), logarithmic=True)],
                             fit_range=(0, ROWS, 0, COLS), pygmo_seed=1 + _s(), population_size=8, generations=1)
     det, pipe = make_objects(pk, prior)
     return cal, det, pipe, target, Processor(detector=det, pipeline=pipe)
@@ -557,7 +568,7 @@ def run_cal(case):
     pk, prior, order = case["pk"], case["prior"], case["order"]
     viol = []
     s = _s()
-    dvs = [[1.0 + s, 10.0], [2.0 + s, 20.0], [3.0 + s, 30.0]]
+    dvs = [[1.0 + s, 1.0], [2.0 + s, 2.0], [3.0 + s, 0.0]]        # (second component: log10 of a = 10, 100, 1)
 
     def bad(code, what, **extra):
         key = {"part": "cal", "code": code}
@@ -574,8 +585,19 @@ def run_cal(case):
             probes.reset()
             for j in order:
                 dv = dvs[j]
-                got = float(problem.fitness(np.array(dv, dtype=float))[0])
-                ref = standalone(pk, prior, "1", {"inc": dv[0], "a": dv[1]}, readout=Readout())
+                vec = np.array(dv, dtype=float)
+                got = float(problem.fitness(vec)[0])
+                # the caller's decision vector is the caller's: unchanged, and evaluating the SAME array again gives the same
+                if not np.array_equal(vec, np.array(dv, dtype=float)):
+                    bad("caller-changed", f"fitness() changed the decision vector it was given from {dv} to {vec.tolist()}",
+                        where="decision-vector")
+                    break
+                again = float(problem.fitness(vec)[0])
+                if again != got:
+                    bad("fitness-differs-from-standalone", f"the same candidate {dv} evaluated twice in a row gives {got!r} then "
+                        f"{again!r}", position="repeat")
+                    break
+                ref = standalone(pk, prior, "1", {"inc": dv[0], "a": float(10.0 ** dv[1])}, readout=Readout())
                 want = float(sum_of_abs_residuals(simulated=ref["pixel"][0], target=target,
                                                   weighting=np.ones_like(target)))
                 fits.append([j, want])
